@@ -153,7 +153,7 @@ Begin(p, tpl) ==
 
 \* additional prevs must be stored with their payload; private transactions need a node DID
 CheckPrevs(p) ==
-    /\ pc[p] = "chkprev" /\ lock = None
+    /\ pc[p] = "chkprev" /\ (call[p].addl # {} => lock = None)        \* no additional prev, no read
     /\ LET c == call[p]
            known == {a \in c.addl : a \in disk.txs /\ a \in disk.pay}
            why == IF known # c.addl THEN "prev" ELSE IF TplPriv(c.tpl) /\ ~NodeDID THEN "nodedid" ELSE "ok"
@@ -178,7 +178,7 @@ ReadHead(p) ==
     /\ UNCHANGED <<attr, disk, mem, lock, tmu, tmuQ, wbuf, ncalls, fails, delivered, gossiped, rp, reproc, nreproc, n2, rej2, wire>>
 
 CalcClock(p) ==
-    /\ pc[p] = "clock" /\ lock = None
+    /\ pc[p] = "clock" /\ (call[p].prevs # {} => lock = None)
     /\ LET c == call[p]
            lc == IF c.prevs = {} THEN 0 ELSE 1 + Max({Lc(q) : q \in c.prevs})
        IN /\ call' = [call EXCEPT ![p] = [c EXCEPT !.lc = lc]]
@@ -205,7 +205,10 @@ Sign(p) ==
 
 \* injected failure of the step the goroutine is about to take (database read error, key store error)
 Fail(p) ==
-    /\ pc[p] \in {"chkprev", "head", "clock", "sign", "verify"} /\ fails < MaxFail
+    /\ \/ pc[p] \in {"head", "sign", "verify"}
+       \/ pc[p] = "chkprev" /\ call[p].addl # {}      \* a step without a database read cannot fail this way
+       \/ pc[p] = "clock" /\ call[p].prevs # {}
+    /\ fails < MaxFail
     /\ fails' = fails + 1
     /\ RetErr(p, "fault")
     /\ Log([a |-> "Fail", p |-> p, at |-> pc[p]])
